@@ -96,6 +96,10 @@ type Config struct {
 	Store      *Store // optional: reuse a store across sessions (reader with another identity)
 	Timeout    time.Duration
 	ParserMode sqlparser.Mode
+	// DBHandler, when set, replaces the typed fake database: it is handed the database end of the proxy's
+	// connection and plays the backend itself (scripted message sequences). Session.DB is nil then; use
+	// the streams returned by Session.DBStreams().
+	DBHandler func(conn net.Conn)
 }
 
 // ErrTimeout marks an I/O deadline hit: the case is inconclusive, never a violation.
@@ -134,6 +138,37 @@ type Session struct {
 	closed    bool
 	// ClientSent / ClientRecv / DBRecv / DBSent are the raw byte streams at both ends.
 	clientTap *tap
+	dbTap     *tap
+}
+
+// DBStreams returns the raw bytes a scripted DBHandler received from and sent to the proxy.
+func (s *Session) DBStreams() (recv, sent []byte) {
+	s.dbTap.mu.Lock()
+	defer s.dbTap.mu.Unlock()
+	return append([]byte(nil), s.dbTap.recv.Bytes()...), append([]byte(nil), s.dbTap.sent.Bytes()...)
+}
+
+// SendMessages encodes and sends arbitrary frontend messages (any type), then flushes.
+func (s *Session) SendMessages(msgs ...pgproto3.FrontendMessage) error {
+	s.clientEnd.SetDeadline(time.Now().Add(s.timeout))
+	for _, m := range msgs {
+		s.fe.Send(m)
+	}
+	return s.fe.Flush()
+}
+
+// ReceiveRaw reads whatever bytes arrive on the client connection within d (for byte-level comparisons).
+func (s *Session) ReceiveRaw(d time.Duration) []byte {
+	s.clientEnd.SetReadDeadline(time.Now().Add(d))
+	buf := make([]byte, 1<<16)
+	var out []byte
+	for {
+		n, err := s.clientTap.Read(buf)
+		out = append(out, buf[:n]...)
+		if err != nil {
+			return out
+		}
+	}
 }
 
 type tap struct {
@@ -230,11 +265,17 @@ func Start(cfg Config) (*Session, error) {
 	if store == nil {
 		store = NewStore(cfg.Tables)
 	}
-	srv := newFakeServer(dbEnd, store)
-	go srv.serve()
+	var srv *FakeServer
+	dbTap := &tap{Conn: dbEnd}
+	if cfg.DBHandler != nil {
+		go cfg.DBHandler(dbTap)
+	} else {
+		srv = newFakeServer(dbEnd, store)
+		go srv.serve()
+	}
 
 	ct := &tap{Conn: clientEnd}
-	s := &Session{pan: pan, fe: pgproto3.NewFrontend(ct, ct), clientEnd: clientEnd, dbEnd: dbEnd, acraC: acraClient, acraD: acraDB, DB: srv, ProxyErrs: errCh, timeout: cfg.Timeout, clientTap: ct}
+	s := &Session{pan: pan, fe: pgproto3.NewFrontend(ct, ct), clientEnd: clientEnd, dbEnd: dbEnd, acraC: acraClient, acraD: acraDB, DB: srv, ProxyErrs: errCh, timeout: cfg.Timeout, clientTap: ct, dbTap: dbTap}
 	clientEnd.SetDeadline(time.Now().Add(cfg.Timeout))
 	s.fe.Send(&pgproto3.StartupMessage{ProtocolVersion: pgproto3.ProtocolVersionNumber, Parameters: map[string]string{"user": "verif", "database": "verif"}})
 	if err := s.fe.Flush(); err != nil {
